@@ -2705,10 +2705,25 @@ def rw_fstring_to_percent(func, k):
 
 
 def rw_np_all_any(func, k):
-    """all(<generator>)  <->  np.all([<list comprehension>])      (same for any)"""
+    """all(<generator>)  <->  np.all([<list comprehension>])      (same for any) - only where nothing but the truth value of the result is
+    used (a test, an operand of not / and / or): np.all returns a numpy bool, which is not `True` for identity tests and prints, pickles and
+    multiplies differently"""
     sites = []
+    par = parents_of(func)
+
+    def boolean_context(c):
+        p_ = par.get(c)
+        if isinstance(p_, (ast.If, ast.While, ast.IfExp, ast.Assert)) and p_.test is c:
+            return True
+        if isinstance(p_, ast.UnaryOp) and isinstance(p_.op, ast.Not):
+            return True
+        if isinstance(p_, ast.BoolOp):
+            return boolean_context(p_)
+        if isinstance(p_, ast.comprehension) and any(c is x for x in p_.ifs):
+            return True
+        return False
     for c in ast.walk(func):
-        if isinstance(c, ast.Call) and len(c.args) == 1 and not c.keywords:
+        if isinstance(c, ast.Call) and len(c.args) == 1 and not c.keywords and (boolean_context(c) or (isinstance(c.func, ast.Name) and isinstance(c.args[0], ast.GeneratorExp) and False)):
             if isinstance(c.func, ast.Name) and c.func.id in ('all', 'any') and isinstance(c.args[0], (ast.GeneratorExp, ast.ListComp)):
                 sites.append((c, 'to_np'))
                 if isinstance(c.args[0], ast.GeneratorExp):
